@@ -25,7 +25,8 @@ THEOREMS = ["Grc.Opt.model_eq_spec", "Grc.Opt.model_eq_spec_any_order", "Grc.Opt
             "Grc.Opt.newIndex_count", "Grc.Opt.newIndex_none", "Grc.Opt.spec_single_optional", "Grc.Fsm.checkCert_correct",
             "Grc.OptGen.loops_as_modelled", "Grc.OptGen.conditions_as_modelled", "Grc.OptGen.locals_as_modelled",
             "Grc.OptGen.swap_and_erase_as_modelled", "Grc.OptGen.recursion_as_modelled", "Grc.OptGen.prev_range_as_modelled",
-            "Grc.OptGen.omit_loop_as_modelled"]
+            "Grc.OptGen.omit_loop_as_modelled", "Grc.OptGen.sort_dedup_overlap_text", "Grc.OptGen.generate_text",
+            "Grc.OptGen.prev_range_text"]
 
 
 def run(tier, seed, replay=None):
